@@ -415,7 +415,9 @@ def gen_plan(rng, tier):
                         sub.append(["nice_iv", rng.choice(UNITS), rng.choice([0, 1, 1, 2, 3, 5])])
                 elif k < 0.92:
                     sub.append(["ticks", rng.choice([None, None, 2, 5, 10, 20, 1, 3, 7, 50])])
-                elif k < 0.96:
+                elif k < 0.94:
+                    sub.append(["ticks_iv", rng.choice(UNITS), rng.choice([1, 2, 5])])
+                elif k < 0.97:
                     sub.append(["copy"])
                 else:
                     sub.append(["clamp", rng.random() < 0.7])
@@ -548,6 +550,9 @@ def _exec_op(op, stats, all_dts):
                 elif so[0] == "clamp":
                     s.clamp(so[1])
                     out.append(s.clamp())
+                elif so[0] == "ticks_iv":
+                    ts = list(s.ticks(d3_time[so[1]], so[2]))
+                    out.append(ts)
             except seams.SimTimeout:
                 raise
             except Exception as e:
